@@ -19,6 +19,7 @@ Local Open Scope N_scope.
 Global Arguments N.add : simpl never.
 Global Arguments N.sub : simpl never.
 Global Arguments N.of_nat : simpl never.
+Global Arguments remove_id : simpl never.
 
 (** ** Projections that matter for this invariant *)
 Definition core_eq (m m' : machine) : Prop :=
@@ -265,21 +266,28 @@ Section Buf.
     reflexivity.
   Qed.
 
-  Lemma frame_upd o f m : (forall x, o_box (f x) = o_box x) -> frame m (upd o f m).
+  Definition keeps_at (m : machine) (o : id) (f : obj -> obj) : Prop :=
+    forall x, get m o = Some x ->
+              h_mark (o_hdr (f x)) = h_mark (o_hdr x) /\ o_box (f x) = o_box x /\
+              o_ismap (f x) = o_ismap x.
+  Lemma keeps_keeps_at m o f : keeps f -> keeps_at m o f.
+  Proof. intros H x _. apply H. Qed.
+
+  Lemma frame_upd o f m : (forall x, get m o = Some x -> o_box (f x) = o_box x) -> frame m (upd o f m).
   Proof.
     intros Hf. split; [apply ext_log_eq; reflexivity|reflexivity|apply N.le_refl|reflexivity|].
-    intros o' x E. rewrite get_upd. destruct (decide (o = o')).
-    - rewrite E. cbn. exists (f x). rewrite Hf. auto.
+    intros o' x E. rewrite get_upd. destruct (decide (o = o')) as [->|].
+    - rewrite E. cbn. exists (f x). rewrite (Hf x E). auto.
     - exists x. auto.
   Qed.
 
-  Lemma Imk_upd Ls Qs o f m : keeps f -> Imk Ls Qs m -> Imk Ls Qs (upd o f m).
+  Lemma Imk_upd Ls Qs o f m : keeps_at m o f -> Imk Ls Qs m -> Imk Ls Qs (upd o f m).
   Proof.
     intros Hf [H1 H2 H3 H4 H5 H6 H7 H8 H9 H10 H11].
     assert (Hg : forall o' y, get (upd o f m) o' = Some y ->
               exists x, get m o' = Some x /\ h_mark (o_hdr y) = h_mark (o_hdr x) /\ o_box y = o_box x).
     { intros o' y E. apply get_upd_Some in E as (x & E & ->). exists x. split; [exact E|].
-      destruct (decide (o = o')); [|auto]. destruct (Hf x) as (? & ? & ?). auto. }
+      destruct (decide (o = o')) as [->|]; [|auto]. destruct (Hf x E) as (? & ? & ?). auto. }
     split; try assumption.
     - intros o' Ho'. destruct (H4 o' Ho') as [x E]. rewrite get_upd, E.
       destruct (decide (o = o')); cbn; eauto.
@@ -287,10 +295,17 @@ Section Buf.
     - intros o' y E. destruct (Hg o' y E) as (x & E' & -> & _). eauto.
     - intros o' y E. destruct (Hg o' y E) as (x & E' & -> & _). eauto.
     - intros o' y E. destruct (Hg o' y E) as (x & E' & -> & ->). eauto.
-    - unfold bytes in *. cbn. rewrite bytes_of_alter_same; [exact H9|].
-      intros x. apply keeps_osize, Hf.
+    - unfold bytes in *. cbn. destruct (get m o) as [x|] eqn:E.
+      + pose proof (bytes_of_alter f o (heap m) x E) as Hb.
+        assert (osize (f x) = osize x) as Hs.
+        { destruct (Hf x E) as (_ & Hb' & Hm). unfold osize, box_layout. rewrite Hb', Hm. reflexivity. }
+        unfold id in *. lia.
+      + rewrite H9. f_equal. symmetry. apply list_eq. intros i. unfold get, id in *.
+        destruct (decide (o = i)) as [->|Hne].
+        * rewrite list_lookup_alter, E. reflexivity.
+        * apply list_lookup_alter_ne, Hne.
   Qed.
-  Lemma GI_upd Ls Qs o f m : keeps f -> GI Ls Qs m -> GI Ls Qs (upd o f m).
+  Lemma GI_upd Ls Qs o f m : keeps_at m o f -> GI Ls Qs m -> GI Ls Qs (upd o f m).
   Proof. intros Hf [D|I]; [left; exact D | right; apply Imk_upd; assumption]. Qed.
 
   Lemma keeps_hdr f : (forall h, h_mark (f h) = h_mark h) -> keeps (fun x => x <| o_hdr ::= f |>).
@@ -299,7 +314,7 @@ Section Buf.
   Proof. apply frame_upd. reflexivity. Qed.
   Lemma GI_uhdr Ls Qs o f m :
     (forall h, h_mark (f h) = h_mark h) -> GI Ls Qs m -> GI Ls Qs (uhdr o f m).
-  Proof. intros Hf. apply GI_upd, keeps_hdr, Hf. Qed.
+  Proof. intros Hf. apply GI_upd, keeps_keeps_at, keeps_hdr, Hf. Qed.
 
 
   (** ** Generic transfer lemmas *)
@@ -425,12 +440,17 @@ Section Buf.
   Proof. intros He. split; [apply frame_emit|intros Ls Qs; apply GI_emit, He]. Qed.
   Lemma mild_emit_bad b o m : b <> Underflow -> mild m (emit_bad b o m).
   Proof. intros Hb. apply mild_emit. destruct b; try reflexivity. congruence. Qed.
-  Lemma mild_upd o f m : keeps f -> mild m (upd o f m).
+  Lemma mild_upd_at o f m : keeps_at m o f -> mild m (upd o f m).
   Proof.
-    intros Hf. split; [apply frame_upd; intros x; apply Hf|intros Ls Qs; apply GI_upd, Hf].
+    intros Hf. split; [apply frame_upd; intros x E; apply (Hf x E)|intros Ls Qs; apply GI_upd, Hf].
   Qed.
+  Lemma mild_upd o f m : keeps f -> mild m (upd o f m).
+  Proof. intros Hf. apply mild_upd_at, keeps_keeps_at, Hf. Qed.
   Lemma mild_uhdr o f m : (forall h, h_mark (f h) = h_mark h) -> mild m (uhdr o f m).
   Proof. intros Hf. apply mild_upd, keeps_hdr, Hf. Qed.
+  Lemma mild_uhdr_at o f m :
+    (forall x, get m o = Some x -> h_mark (f (o_hdr x)) = h_mark (o_hdr x)) -> mild m (uhdr o f m).
+  Proof. intros Hf. apply mild_upd_at. intros x E. cbn. auto. Qed.
 
   (** *** remove_from_list / add_to_list *)
   Lemma is_in_pc_get m o :
@@ -472,12 +492,11 @@ Section Buf.
     pose proof (length_remove_id o (pc m) (ik_nodup _ _ _ I) Hin) as Hlen.
     pose proof (ik_size _ _ _ I) as Hsz.
     unfold dec_size. cbn [pc_size set]. 
-    replace (pc_size (uhdr o (set_mark NM) m <| pc ::= remove_id o |>)) with (pc_size m) by reflexivity.
+    change (pc_size (uhdr o (set_mark NM) m)) with (pc_size m).
     destruct (pc_size m =? 0) eqn:Ez; [apply N.eqb_eq in Ez; lia|].
     eapply (Imk_reobj Ls Qs Ls Qs m _ o x (fun x => x <| o_hdr ::= set_mark NM |>)); try exact I;
       try exact Ex; try reflexivity.
     - cbn. rewrite Hsz, Hlen. lia.
-    - cbn. lia.
     - exact (ik_uflow _ _ _ I).
     - cbn. apply NoDup_remove_id, (ik_nodup _ _ _ I).
     - exact (ik_lists _ _ _ I).
@@ -494,4 +513,250 @@ Section Buf.
     - intros I. right. apply Imk_remove_from_list, I.
   Qed.
 
+
+  Lemma frame_add_to_list o m : frame m (add_to_list o m).
+  Proof.
+    unfold add_to_list. destruct (is_in_pc (hdr_of m o)); [apply frame_refl|].
+    destruct (pc_alive m); [|apply frame_refl].
+    eapply frame_trans; [|apply frame_uhdr].
+    match goal with |- frame m (set pc_size _ (set pc _ ?m1)) => assert (frame m m1) as F1 end.
+    { destruct (_ && _); [apply frame_refl|apply frame_emit]. }
+    eapply frame_trans; [exact F1|]. apply frame_same; try reflexivity. apply ext_log_eq. reflexivity.
+  Qed.
+
+  Lemma Imk_add_to_list Ls Qs o m x :
+    get m o = Some x -> o_box x <> BNotYet ->
+    Imk Ls Qs m -> GI Ls Qs (add_to_list o m).
+  Proof.
+    intros Ex Hbx I. unfold add_to_list.
+    destruct (is_in_pc (hdr_of m o)) eqn:Epc; [right; exact I|].
+    rewrite (ik_alive _ _ _ I).
+    pose proof (is_in_pc_false _ _ _ Ex Epc) as HnPC.
+    destruct (is_not_marked (hdr_of m o) && negb (is_dropped (hdr_of m o))) eqn:Ec.
+    - right. apply andb_true_iff in Ec as [Enm _]. unfold is_not_marked in Enm.
+      rewrite (hdr_of_get _ _ _ Ex) in Enm.
+      assert (Hm : h_mark (o_hdr x) = NM) by (destruct (h_mark (o_hdr x)); congruence).
+      pose proof (Imk_mark_cases _ _ _ _ _ I Ex) as Hc. rewrite Hm in Hc. destruct Hc as (Hin & HnL & HnQ).
+      eapply (Imk_reobj Ls Qs Ls Qs m _ o x (fun x => x <| o_hdr ::= fun h => set_mark PC (reset_tc h) |>));
+        try exact I; try exact Ex; try reflexivity.
+      + cbn. rewrite (ik_size _ _ _ I). lia.
+      + exact (ik_uflow _ _ _ I).
+      + cbn. apply NoDup_cons. split; [exact Hin|exact (ik_nodup _ _ _ I)].
+      + exact (ik_lists _ _ _ I).
+      + intros o' Hne. cbn. rewrite elem_of_cons. tauto.
+      + cbn. rewrite elem_of_cons. tauto.
+      + cbn. split; [discriminate|tauto].
+      + cbn. split; [discriminate|tauto].
+      + cbn. intros Hb. congruence.
+    - left. eapply dirty_ext; [|apply (dirty_emit_bad AssertFail o m); reflexivity].
+      eapply ext_trans; [|apply fr_ext, frame_uhdr]. apply ext_log_eq. reflexivity.
+  Qed.
+
+  Lemma mild_add_to_list o m x :
+    get m o = Some x -> o_box x <> BNotYet -> mild m (add_to_list o m).
+  Proof.
+    intros Ex Hbx. split; [apply frame_add_to_list|]. intros Ls Qs. apply GI_from.
+    - apply frame_add_to_list.
+    - apply (Imk_add_to_list _ _ _ _ x); assumption.
+  Qed.
+
+  (** *** counters *)
+  Lemma dec_rc_mark h h' : dec_rc h = Some h' -> h_mark h' = h_mark h.
+  Proof. unfold dec_rc. destruct (h_rc h =? 0); [discriminate|]. intros [= <-]. reflexivity. Qed.
+  Lemma inc_rc_mark h h' : inc_rc h = Some h' -> h_mark h' = h_mark h.
+  Proof. unfold inc_rc. destruct (h_rc h =? max_rc); [discriminate|]. intros [= <-]. reflexivity. Qed.
+  Lemma inc_tc_mark h h' : inc_tc h = Some h' -> h_mark h' = h_mark h.
+  Proof. unfold inc_tc. destruct (h_tc h =? max_rc); [discriminate|]. intros [= <-]. reflexivity. Qed.
+
+  Lemma mild_uhdr_const o h m :
+    h_mark h = h_mark (hdr_of m o) -> mild m (uhdr o (fun _ => h) m).
+  Proof.
+    intros Hm. apply mild_uhdr_at. intros x E. rewrite Hm, (hdr_of_get _ _ _ E). reflexivity.
+  Qed.
+
+  Lemma mild_dec_rc_m o m : mild m (dec_rc_m o m).
+  Proof.
+    unfold dec_rc_m. destruct (dec_rc (hdr_of m o)) as [h|] eqn:E.
+    - apply mild_uhdr_const, (dec_rc_mark _ _ E).
+    - apply mild_emit_bad. discriminate.
+  Qed.
+
+  (** *** dealloc *)
+  Lemma frame_dealloc o m : frame m (dealloc K o m).
+  Proof.
+    unfold dealloc. destruct (get m o) as [x|] eqn:Ex; [|apply frame_emit].
+    destruct (box_layout K x) as [sz al].
+    set (m1 := match o_box x with BAlloc => m | _ => emit_bad DoubleFree o m end).
+    set (m2 := if st_alloc m1 <? sz then emit_bad Underflow o m1 else m1).
+    assert (E1 : ext m m1) by (subst m1; destruct (o_box x); first [apply ext_refl|apply ext_emit]).
+    assert (E2 : ext m1 m2) by (subst m2; destruct (_ <? _); first [apply ext_refl|apply ext_emit]).
+    assert (Hh : heap m2 = heap m).
+    { subst m2 m1. destruct (_ <? _); destruct (o_box x); reflexivity. }
+    assert (Hc : st_collecting m2 = st_collecting m).
+    { subst m2 m1. destruct (_ <? _); destruct (o_box x); reflexivity. }
+    assert (He : st_exec m2 = st_exec m).
+    { subst m2 m1. destruct (_ <? _); destruct (o_box x); reflexivity. }
+    assert (Hd : o_box x = BNotYet -> dirty m2).
+    { intros Hb. eapply dirty_ext; [exact E2|]. subst m1. rewrite Hb. apply dirty_emit_bad. reflexivity. }
+    assert (E12 : ext m m2) by (eapply ext_trans; eassumption).
+    clearbody m2.
+    split.
+    - eapply ext_trans; [|apply ext_emit]. destruct E12 as [l1 E12].
+      exists l1. exact E12.
+    - exact Hc.
+    - cbn. rewrite He. apply N.le_refl.
+    - intros _. exact He.
+    - intros o' y Ey. cbn. unfold get, upd. cbn. rewrite Hh. fold (get m o').
+      destruct (decide (o = o')) as [<-|Hne].
+      + unfold get, id in *. rewrite list_lookup_alter, Ey. cbn. eexists. split; [reflexivity|]. cbn.
+        split; [discriminate|]. intros Hb. right. apply dirty_emit. rewrite Ex in Ey. injection Ey as <-.
+        exact (Hd Hb).
+      + unfold get, id in *. rewrite list_lookup_alter_ne by exact Hne. exists y. auto.
+  Qed.
+
+  Lemma Imk_dealloc Ls Qs o m : Imk Ls Qs m -> GI Ls Qs (dealloc K o m).
+  Proof.
+    intros I. unfold dealloc. destruct (get m o) as [x|] eqn:Ex.
+    2:{ right. apply Imk_emit; [reflexivity|exact I]. }
+    destruct (box_layout K x) as [sz al] eqn:El.
+    destruct (o_box x) eqn:Eb.
+    - left. unfold dirty. destruct (_ <? _); cbn; rewrite ?orb_true_r; reflexivity.
+    - right.
+      assert (Hsz : osize x = sz) by (unfold osize; rewrite Eb, El; reflexivity).
+      pose proof (bytes_of_ge (heap m) o x Ex) as Hge. fold (bytes m) in Hge.
+      rewrite <- (ik_bytes _ _ _ I), Hsz in Hge.
+      destruct (st_alloc m <? sz) eqn:Elt; [apply N.ltb_lt in Elt; lia|].
+      pose proof (Imk_mark_cases _ _ _ _ _ I Ex) as Hc.
+      eapply (Imk_reobj Ls Qs Ls Qs m _ o x (fun x => x <| o_box := BFreed |>));
+        try exact I; try exact Ex; try reflexivity.
+      + exact (ik_size _ _ _ I).
+      + cbn. rewrite Hsz. unfold osize. cbn. lia.
+      + unfold uflow. cbn. exact (ik_uflow _ _ _ I).
+      + exact (ik_nodup _ _ _ I).
+      + exact (ik_lists _ _ _ I).
+      + intros o' _. tauto.
+      + cbn. apply (ik_pc _ _ _ I o x Ex).
+      + cbn. apply (ik_il _ _ _ I o x Ex).
+      + cbn. apply (ik_iq _ _ _ I o x Ex).
+      + cbn. discriminate.
+    - left. unfold dirty. destruct (_ <? _); cbn; rewrite ?orb_true_r; reflexivity.
+  Qed.
+
+  Lemma mild_dealloc o m : mild m (dealloc K o m).
+  Proof.
+    split; [apply frame_dealloc|]. intros Ls Qs. apply GI_from; [apply frame_dealloc|].
+    apply Imk_dealloc.
+  Qed.
+
+  (** *** box_alloc: only ever applied to the object created just before *)
+  Lemma box_alloc_ext o m : ext m (box_alloc K o m).
+  Proof.
+    unfold box_alloc. destruct (get m o) as [x|]; [|apply ext_emit].
+    destruct (box_layout K x). eapply ext_trans; [|apply ext_emit]. apply ext_log_eq. reflexivity.
+  Qed.
+  Lemma box_alloc_coll o m : st_collecting (box_alloc K o m) = st_collecting m.
+  Proof. unfold box_alloc. destruct (get m o) as [x|]; [|reflexivity]. destruct (box_layout K x). reflexivity. Qed.
+  Lemma box_alloc_exec o m : st_exec (box_alloc K o m) = st_exec m.
+  Proof. unfold box_alloc. destruct (get m o) as [x|]; [|reflexivity]. destruct (box_layout K x). reflexivity. Qed.
+  Lemma box_alloc_get_ne o m o' : o <> o' -> get (box_alloc K o m) o' = get m o'.
+  Proof.
+    intros Hne. unfold box_alloc. destruct (get m o) as [x|]; [|reflexivity]. destruct (box_layout K x).
+    unfold get, id. cbn. apply list_lookup_alter_ne, Hne.
+  Qed.
+
+  Lemma frame_box_alloc m m1 o :
+    frame m m1 -> (length (heap m) <= o)%nat -> frame m (box_alloc K o m1).
+  Proof.
+    intros [F1 F2 F3 F4 F5] Hlen. split.
+    - eapply ext_trans; [exact F1|apply box_alloc_ext].
+    - rewrite box_alloc_coll. exact F2.
+    - rewrite box_alloc_exec. exact F3.
+    - rewrite box_alloc_exec. exact F4.
+    - intros o' x E. pose proof (get_lt _ _ _ E) as Hlt.
+      destruct (F5 o' x E) as (x' & E' & N1 & N2). exists x'.
+      rewrite box_alloc_get_ne by lia. split; [exact E'|]. split; [exact N1|].
+      intros Hb. destruct (N2 Hb) as [?|D]; [auto|]. right.
+      eapply dirty_ext; [apply box_alloc_ext|exact D].
+  Qed.
+
+  Lemma GI_box_alloc Ls Qs o m :
+    (forall x, get m o = Some x -> o_box x = BNotYet \/ dirty m) ->
+    GI Ls Qs m -> GI Ls Qs (box_alloc K o m).
+  Proof.
+    intros Hbx [D|I]; [left; eapply dirty_ext; [apply box_alloc_ext|exact D]|].
+    unfold box_alloc. destruct (get m o) as [x|] eqn:Ex.
+    2:{ right. apply Imk_emit; [reflexivity|exact I]. }
+    destruct (Hbx x eq_refl) as [Eb|D].
+    2:{ left. destruct (box_layout K x). apply dirty_emit. exact D. }
+    destruct (box_layout K x) as [sz al] eqn:El. right.
+    pose proof (ik_box _ _ _ I o x Ex Eb) as Hm.
+    pose proof (Imk_mark_cases _ _ _ _ _ I Ex) as Hc. rewrite Hm in Hc. destruct Hc as (Hin & HnL & HnQ).
+    eapply (Imk_reobj Ls Qs Ls Qs m _ o x
+              (fun x => x <| o_box := BAlloc |> <| o_hdr := hdr_new (k_fin K && st_finalizing m) |>));
+      try exact I; try exact Ex; try reflexivity.
+    - exact (ik_size _ _ _ I).
+    - cbn. unfold osize. rewrite Eb. cbn. unfold box_layout in *. cbn. rewrite El. cbn. lia.
+    - unfold uflow. cbn. exact (ik_uflow _ _ _ I).
+    - exact (ik_nodup _ _ _ I).
+    - exact (ik_lists _ _ _ I).
+    - intros o' _. tauto.
+    - cbn. split; [discriminate|tauto].
+    - cbn. split; [discriminate|tauto].
+    - cbn. split; [discriminate|tauto].
+  Qed.
+
+  (** *** a new heap object *)
+  Lemma mild_push y m :
+    h_mark (o_hdr y) = NM -> o_box y = BNotYet -> mild m (m <| heap ::= fun h => h ++ [y] |>).
+  Proof.
+    intros Hm Hb.
+    assert (Hold : forall o x, get m o = Some x -> get (m <| heap ::= fun h => h ++ [y] |>) o = Some x).
+    { intros o x E. unfold get, id in *. cbn. rewrite lookup_app_l; [exact E|]. eapply lookup_lt_Some, E. }
+    assert (Hnew : forall o z, get (m <| heap ::= fun h => h ++ [y] |>) o = Some z ->
+                     get m o = Some z \/ (get m o = None /\ z = y)).
+    { intros o z E. unfold get, id in *. cbn in E. destruct (heap m !! o) as [x|] eqn:Eo.
+      - rewrite lookup_app_l in E by (eapply lookup_lt_Some, Eo). left. congruence.
+      - right. split; [reflexivity|]. apply lookup_ge_None_1 in Eo.
+        rewrite lookup_app_r in E by exact Eo. destruct (o - length (heap m))%nat; cbn in E; [congruence|discriminate]. }
+    split.
+    - split; [apply ext_log_eq; reflexivity|reflexivity|apply N.le_refl|reflexivity|].
+      intros o x E. exists x. auto.
+    - intros Ls Qs [D|I]; [left; exact D|right].
+      destruct I as [H1 H2 H3 H4 H5 H6 H7 H8 H9 H10 H11].
+      assert (Hnot : forall o, get m o = None -> o ∉ pc m /\ o ∉ Ls /\ o ∉ Qs).
+      { intros o En. repeat split; intros Hin; destruct (H4 o) as [x Ex]; try congruence;
+          rewrite !elem_of_app; auto. }
+      split; try assumption.
+      + intros o Ho. destruct (H4 o Ho) as [x Ex]. exists x. auto.
+      + intros o z E. destruct (Hnew o z E) as [E'|[En ->]]; [eauto|].
+        destruct (Hnot o En) as (? & ? & ?). rewrite Hm. split; [discriminate|tauto].
+      + intros o z E. destruct (Hnew o z E) as [E'|[En ->]]; [eauto|].
+        destruct (Hnot o En) as (? & ? & ?). rewrite Hm. split; [discriminate|tauto].
+      + intros o z E. destruct (Hnew o z E) as [E'|[En ->]]; [eauto|].
+        destruct (Hnot o En) as (? & ? & ?). rewrite Hm. split; [discriminate|tauto].
+      + intros o z E. destruct (Hnew o z E) as [E'|[En ->]]; [eauto|]. auto.
+      + unfold bytes in *. cbn. rewrite bytes_of_app, H9. rewrite bytes_of_cons.
+        unfold osize at 1. rewrite Hb. change (bytes_of []) with 0. lia.
+  Qed.
+
+  Lemma mild_new_node P cls m : mild m (new_node P cls m).1.
+  Proof. unfold new_node. cbn [fst]. apply mild_push; reflexivity. Qed.
+  Lemma mild_new_map m : mild m (new_map m).1.
+  Proof. unfold new_map. cbn [fst]. apply mild_push; reflexivity. Qed.
+  Lemma new_node_id P cls m : (new_node P cls m).2 = length (heap m).
+  Proof. reflexivity. Qed.
+  Lemma new_map_id m : (new_map m).2 = length (heap m).
+  Proof. reflexivity. Qed.
+  Lemma new_node_get P cls m :
+    exists y, get (new_node P cls m).1 (length (heap m)) = Some y /\ o_box y = BNotYet.
+  Proof.
+    unfold new_node, get. cbn. eexists. rewrite lookup_app_r by lia.
+    rewrite Nat.sub_diag. cbn. split; reflexivity.
+  Qed.
+  Lemma new_map_get m :
+    exists y, get (new_map m).1 (length (heap m)) = Some y /\ o_box y = BNotYet.
+  Proof.
+    unfold new_map, get. cbn. eexists. rewrite lookup_app_r by lia.
+    rewrite Nat.sub_diag. cbn. split; reflexivity.
+  Qed.
 End Buf.
